@@ -10,6 +10,8 @@ package main
 // what really ran.
 
 import (
+	"crypto/sha1"
+	"encoding/hex"
 	"encoding/json"
 	"sort"
 
@@ -43,6 +45,16 @@ func stripMarksJ(a any) any {
 	return a
 }
 
+func digestOf(xs ...any) string {
+	h := sha1.New()
+	for _, x := range xs {
+		b, _ := json.Marshal(x)
+		h.Write(b)
+		h.Write([]byte{0})
+	}
+	return hex.EncodeToString(h.Sum(nil))[:20]
+}
+
 func jsonKey(x any) string {
 	b, _ := json.Marshal(x)
 	return string(b)
@@ -56,9 +68,17 @@ func driveOps(c *Ctx) error {
 	emitPair := func(api string, x J, rel any, aj, bj []any, am bool) {
 		a := concretizeArgs(aj, 0)
 		b := concretizeArgs(bj, 0)
+		pa, pb := projectArgs(a), projectArgs(b)
 		ev := J{"ev": "pair", "rel": rel, "api": api, "x": x,
-			"a": projectArgs(a), "b": projectArgs(b),
+			"a": pa, "b": pb,
 			"ra": run(api, a, x), "rb": run(api, b, x)}
+		// the operands re-read after the calls (digests of the full projections before / after;
+		// the trace spec compares them: an operand must report the same afterwards)
+		pa2, pb2 := projectArgs(a), projectArgs(b)
+		ev["ia"], ev["ia2"] = digestOf(pa, pb), digestOf(pa2, pb2)
+		if rel == "unmark" {
+			ev["a2"] = pa2
+		}
 		if rel == "weak" {
 			// purity of the weakened run: distinct outcomes over repeated identical calls
 			seen := map[string]bool{}
@@ -101,7 +121,10 @@ func driveOps(c *Ctx) error {
 		}
 		rs := collect(reps*2, func(int) []cty.Value { return a0 })
 		rr := collect(reps, func(i int) []cty.Value { return concretizeArgs(aj, i) })
-		ev := J{"ev": "call", "api": api, "x": x, "a": projectArgs(a0), "r": run(api, a0, x), "rs": rs, "rr": rr}
+		pa0 := projectArgs(a0)
+		ia := digestOf(pa0)
+		ev := J{"ev": "call", "api": api, "x": x, "a": pa0, "r": run(api, a0, x), "rs": rs, "rr": rr}
+		ev["ia"], ev["ia2"] = ia, digestOf(projectArgs(a0))
 		// per representation: the largest mantissa precision among number operands, and the outcome
 		allNum := len(a0) > 0
 		for _, v := range a0 {
